@@ -8,6 +8,8 @@
 #include <bee2/core/blob.h>
 #include <bee2/core/err.h>
 #include <bee2/core/tm.h>
+#include <bee2/core/mt.h>
+#include <bee2/core/obj.h>
 #include <bee2/core/util.h>
 #include <bee2/core/prng.h>
 #include <bee2/math/ww.h>
@@ -602,6 +604,289 @@ static void op_irredsweep(int argc, char** argv)
 	blobClose(st);
 }
 
+
+/* ---- object predicates: a valid object is created, single fields are corrupted in place, every predicate is asked ----
+   corruption tokens  name=value  (decimal; pointers: only =0 is meaningful):
+   qr:  keep pcount ocount n no deep mod unity params from to add sub neg mul sqr inv div modtop modlow p0 p1 p2 p3
+   ec:  keep pcount ocount d cofactor deep A B base order ordval froma toa neg add adda sub suba dbl dbla tpl, f.<qr token> */
+static int corrupt_qr(qr_o* r, const char* tok)
+{
+	const char* eq = strchr(tok, '=');
+	unsigned long long v;
+	size_t k;
+	if (!eq) return 0;
+	k = (size_t)(eq - tok);
+	v = strtoull(eq + 1, 0, 10);
+#define IS(name) (k == strlen(name) && !strncmp(tok, name, k))
+	if (IS("keep")) r->hdr.keep = (size_t)v;
+	else if (IS("pcount")) r->hdr.p_count = (size_t)v;
+	else if (IS("ocount")) r->hdr.o_count = (size_t)v;
+	else if (IS("n")) r->n = (size_t)v;
+	else if (IS("no")) r->no = (size_t)v;
+	else if (IS("deep")) r->deep = (size_t)v;
+	else if (IS("mod")) r->mod = 0;
+	else if (IS("unity")) r->unity = 0;
+	else if (IS("params")) r->params = 0;
+	else if (IS("from")) r->from = 0;
+	else if (IS("to")) r->to = 0;
+	else if (IS("add")) r->add = 0;
+	else if (IS("sub")) r->sub = 0;
+	else if (IS("neg")) r->neg = 0;
+	else if (IS("mul")) r->mul = 0;
+	else if (IS("sqr")) r->sqr = 0;
+	else if (IS("inv")) r->inv = 0;
+	else if (IS("div")) r->div = 0;
+	else if (IS("modtop")) r->mod[r->n - 1 + (size_t)(v >> 32)] = (word)(v & 0xFFFFFFFFu);	/* word n-1 (+hi) <- lo */
+	else if (IS("modlow")) r->mod[0] = (word)v;
+	else if (IS("p0")) ((size_t*)r->params)[0] = (size_t)v;
+	else if (IS("p1")) ((size_t*)r->params)[1] = (size_t)v;
+	else if (IS("p2")) ((size_t*)r->params)[2] = (size_t)v;
+	else if (IS("p3")) ((size_t*)r->params)[3] = (size_t)v;
+	else return 0;
+	return 1;
+}
+
+static int corrupt_ec(ec_o* ec, qr_o* f, const char* tok)
+{
+	const char* eq = strchr(tok, '=');
+	unsigned long long v;
+	size_t k;
+	if (!eq) return 0;
+	if (!strncmp(tok, "f.", 2)) return corrupt_qr(f, tok + 2);
+	k = (size_t)(eq - tok);
+	v = strtoull(eq + 1, 0, 10);
+	if (IS("keep")) ec->hdr.keep = (size_t)v;
+	else if (IS("pcount")) ec->hdr.p_count = (size_t)v;
+	else if (IS("ocount")) ec->hdr.o_count = (size_t)v;
+	else if (IS("d")) ec->d = (size_t)v;
+	else if (IS("cofactor")) ec->cofactor = (word)v;
+	else if (IS("deep")) ec->deep = !strcmp(eq + 1, "f") ? f->deep : !strcmp(eq + 1, "f-1") ? f->deep - 1 : (size_t)v;
+	else if (IS("A")) ec->A = 0;
+	else if (IS("B")) ec->B = 0;
+	else if (IS("base")) ec->base = 0;
+	else if (IS("order")) ec->order = 0;
+	else if (IS("ordval")) wwSetZero(ec->order, f->n + 1);
+	else if (IS("froma")) ec->froma = 0;
+	else if (IS("toa")) ec->toa = 0;
+	else if (IS("neg")) ec->neg = 0;
+	else if (IS("add")) ec->add = 0;
+	else if (IS("adda")) ec->adda = 0;
+	else if (IS("sub")) ec->sub = 0;
+	else if (IS("suba")) ec->suba = 0;
+	else if (IS("dbl")) ec->dbl = 0;
+	else if (IS("dbla")) ec->dbla = 0;
+	else if (IS("tpl")) ec->tpl = 0;
+	else return 0;
+	return 1;
+#undef IS
+}
+
+/* obj gfp <p> tok…  -> qrIsOperable zmIsValid gfpIsOperable gfpIsValid
+   obj gf2 <m> <k1> <k2> <k3> tok… -> qrIsOperable gf2IsOperable gf2IsValid
+   obj ecp <p> <a> <b> <x> <y> <q> <cof> tok… / obj ec2 <m> <k1> <k2> <k3> <A> <B> <x> <y> <q> <cof> tok…
+       -> ecIsOperable2 ecIsOperable ecIsOperableGroup  (the field predicates of ec->f too: qrIsOperable) */
+static void op_obj(int argc, char** argv)
+{
+	int i;
+	if (argc >= 3 && !strcmp(argv[1], "gfp"))
+	{
+		size_t no; unsigned char* p = hex_arg(argv[2], &no);
+		void* state; qr_o* f; void* stack;
+		if (no == 0 || p[no - 1] == 0) { printf("bad-op"); return; }
+		state = blobCreate(gfpCreate_keep(no) + utilMax(2, gfpCreate_deep(no), gfpIsValid_deep(W_OF_O(no))) + 64);
+		f = (qr_o*)state; stack = (octet*)f + gfpCreate_keep(no);
+		if (!gfpCreate(f, p, no, stack)) { printf("0"); blobClose(state); hex_free(p, no); return; }
+		for (i = 3; i < argc; ++i) if (!corrupt_qr(f, argv[i])) { printf("bad-op"); blobClose(state); return; }
+		printf("1 %d %d %d %d", qrIsOperable(f), zmIsValid(f), gfpIsOperable(f), gfpIsValid(f, stack));
+		blobClose(state); hex_free(p, no);
+	}
+	else if (argc >= 6 && !strcmp(argv[1], "gf2"))
+	{
+		size_t pd[4]; size_t m = (size_t)u_arg(argv[2]);
+		void* state; qr_o* f; void* stack;
+		pd[0] = m; pd[1] = (size_t)u_arg(argv[3]); pd[2] = (size_t)u_arg(argv[4]); pd[3] = (size_t)u_arg(argv[5]);
+		if (m < 2 || m > 600) { printf("bad-op"); return; }
+		state = blobCreate(gf2Create_keep(m) + utilMax(2, gf2Create_deep(m), gf2IsValid_deep(W_OF_B(m))) + 64);
+		f = (qr_o*)state; stack = (octet*)f + gf2Create_keep(m);
+		if (!gf2Create(f, pd, stack)) { printf("0"); blobClose(state); return; }
+		for (i = 6; i < argc; ++i) if (!corrupt_qr(f, argv[i])) { printf("bad-op"); blobClose(state); return; }
+		printf("1 %d %d %d", qrIsOperable(f), gf2IsOperable(f), gf2IsValid(f, stack));
+		blobClose(state);
+	}
+	else if ((argc >= 9 && !strcmp(argv[1], "ecp")) || (argc >= 12 && !strcmp(argv[1], "ec2")))
+	{
+		int bin = argv[1][2] == '2';
+		int first = bin ? 12 : 9;
+		size_t no, n, m = 0, la, lb, lx, ly, lq;
+		unsigned char *p = 0, *a, *b, *x, *y, *q;
+		size_t pd[4];
+		void* state; qr_o* f; ec_o* ec; void* stack;
+		size_t f_keep, f_deep, ec_keep, ec_deep;
+		u32 cof;
+		if (bin)
+		{
+			m = (size_t)u_arg(argv[2]);
+			pd[0] = m; pd[1] = (size_t)u_arg(argv[3]); pd[2] = (size_t)u_arg(argv[4]); pd[3] = (size_t)u_arg(argv[5]);
+			if (m < 2 || m > 600) { printf("bad-op"); return; }
+			no = O_OF_B(m); n = W_OF_B(m);
+			a = hex_arg(argv[6], &la); b = hex_arg(argv[7], &lb); x = hex_arg(argv[8], &lx); y = hex_arg(argv[9], &ly);
+			q = hex_arg(argv[10], &lq); cof = (u32)u_arg(argv[11]);
+			f_keep = gf2Create_keep(m); f_deep = gf2Create_deep(m);
+			ec_keep = ec2CreateLD_keep(n); ec_deep = ec2CreateLD_deep(n, f_deep);
+		}
+		else
+		{
+			p = hex_arg(argv[2], &no);
+			if (no == 0 || p[no - 1] == 0) { printf("bad-op"); return; }
+			n = W_OF_O(no);
+			a = hex_arg(argv[3], &la); b = hex_arg(argv[4], &lb); x = hex_arg(argv[5], &lx); y = hex_arg(argv[6], &ly);
+			q = hex_arg(argv[7], &lq); cof = (u32)u_arg(argv[8]);
+			f_keep = gfpCreate_keep(no); f_deep = gfpCreate_deep(no);
+			ec_keep = ecpCreateJ_keep(n); ec_deep = ecpCreateJ_deep(n, f_deep);
+		}
+		if (la != no || lb != no || lx != no || ly != no) { printf("bad-op"); return; }
+		state = blobCreate(f_keep + ec_keep + utilMax(2, ec_deep, ecCreateGroup_deep(f_deep)) + 64);
+		f = (qr_o*)((octet*)state + ec_keep);
+		stack = (octet*)f + f_keep;
+		ec = (ec_o*)state;
+		if (!(bin ? gf2Create(f, pd, stack) : gfpCreate(f, p, no, stack)) ||
+			!(bin ? ec2CreateLD(ec, f, a, b, stack) : ecpCreateJ(ec, f, a, b, stack)) ||
+			!ecCreateGroup(ec, x, y, q, lq, cof, stack))
+			printf("0");
+		else
+		{
+			objAppend(ec, f, 0);
+			f = (qr_o*)ec->f;
+			for (i = first; i < argc; ++i) if (!corrupt_ec(ec, f, argv[i])) { printf("bad-op"); blobClose(state); return; }
+			printf("1 %d %d %d %d", ecIsOperable2(ec), ecIsOperable(ec), ecIsOperableGroup(ec), qrIsOperable(ec->f));
+		}
+		blobClose(state);
+	}
+	else
+		printf("bad-op");
+}
+
+/* on-curve predicates with non-canonical coordinates:
+   ecpon <p> <a> <b> <x> <y> <kx> <ky>: the coordinates of the field representation plus kx·p / ky·p (must fit n words)
+   ec2on <m> <k1> <k2> <k3> <A> <B> <x> <y> <hx> <hy>: bits hx / hy placed at position m and above (must fit n words) */
+static word c12_pt[2 * 160];
+static void op_on(int argc, char** argv)
+{
+	if (!strcmp(argv[0], "ecpon") && argc == 8)
+	{
+		size_t no, n, la, lb, lx, ly, k;
+		unsigned char *p = hex_arg(argv[1], &no), *a = hex_arg(argv[2], &la), *b = hex_arg(argv[3], &lb),
+			*x = hex_arg(argv[4], &lx), *y = hex_arg(argv[5], &ly);
+		void* state; qr_o* f; ec_o* ec; void* stack; word* pt;
+		size_t f_keep, f_deep, ec_keep, ec_deep;
+		if (no == 0 || p[no - 1] == 0 || la != no || lb != no || lx != no || ly != no) { printf("bad-op"); return; }
+		n = W_OF_O(no);
+		f_keep = gfpCreate_keep(no); f_deep = gfpCreate_deep(no);
+		ec_keep = ecpCreateJ_keep(n); ec_deep = ecpCreateJ_deep(n, f_deep);
+		state = blobCreate(f_keep + ec_keep + utilMax(2, ec_deep, ecpIsOnA_deep(n, f_deep)) + 64);
+		f = (qr_o*)((octet*)state + ec_keep);
+		pt = c12_pt;		/* outside the blob: objAppend moves f, the stack then starts at objEnd(ec) */
+		stack = (octet*)f + f_keep;
+		ec = (ec_o*)state;
+		if (!gfpCreate(f, p, no, stack) || !ecpCreateJ(ec, f, a, b, stack) ||
+			!qrFrom(pt, x, f, stack) || !qrFrom(pt + n, y, f, stack))
+			printf("0");
+		else
+		{
+			int fit = 1;
+			objAppend(ec, f, 0);
+			for (k = (size_t)u_arg(argv[6]); k--;) if (zzAdd2(pt, ec->f->mod, n)) fit = 0;
+			for (k = (size_t)u_arg(argv[7]); k--;) if (zzAdd2(pt + n, ec->f->mod, n)) fit = 0;
+			if (!fit) printf("nofit");
+			else printf("1 %d", ecpIsOnA(pt, ec, objEnd(ec, void)) ? 1 : 0);
+		}
+		blobClose(state);
+	}
+	else if (!strcmp(argv[0], "ec2on") && argc == 11)
+	{
+		size_t m = (size_t)u_arg(argv[1]), n, no, la, lb, lx, ly;
+		size_t pd[4];
+		unsigned char *a = hex_arg(argv[5], &la), *b = hex_arg(argv[6], &lb), *x = hex_arg(argv[7], &lx), *y = hex_arg(argv[8], &ly);
+		unsigned long long hx = u_arg(argv[9]), hy = u_arg(argv[10]);
+		void* state; qr_o* f; ec_o* ec; void* stack; word* pt;
+		size_t f_keep, f_deep, ec_keep, ec_deep;
+		pd[0] = m; pd[1] = (size_t)u_arg(argv[2]); pd[2] = (size_t)u_arg(argv[3]); pd[3] = (size_t)u_arg(argv[4]);
+		if (m < 2 || m > 600) { printf("bad-op"); return; }
+		n = W_OF_B(m); no = O_OF_B(m);
+		if (la != no || lb != no || lx != no || ly != no) { printf("bad-op"); return; }
+		f_keep = gf2Create_keep(m); f_deep = gf2Create_deep(m);
+		ec_keep = ec2CreateLD_keep(n); ec_deep = ec2CreateLD_deep(n, f_deep);
+		state = blobCreate(f_keep + ec_keep + utilMax(2, ec_deep, ec2IsOnA_deep(n, f_deep)) + 64);
+		f = (qr_o*)((octet*)state + ec_keep);
+		pt = c12_pt;
+		stack = (octet*)f + f_keep;
+		ec = (ec_o*)state;
+		if (!gf2Create(f, pd, stack) || !ec2CreateLD(ec, f, a, b, stack) ||
+			!qrFrom(pt, x, f, stack) || !qrFrom(pt + n, y, f, stack))
+			printf("0");
+		else
+		{
+			size_t room = n * B_PER_W - m, j;
+			objAppend(ec, f, 0);
+			if ((room < 64 && ((hx >> room) || (hy >> room))) ) printf("nofit");
+			else
+			{
+				for (j = 0; j < 64 && j < room; ++j)
+				{
+					if ((hx >> j) & 1) wwSetBit(pt, m + j, 1);
+					if ((hy >> j) & 1) wwSetBit(pt + n, m + j, 1);
+				}
+				printf("1 %d", ec2IsOnA(pt, ec, objEnd(ec, void)) ? 1 : 0);
+			}
+		}
+		blobClose(state);
+	}
+	else
+		printf("bad-op");
+}
+
+/* priExtendPrime2 with the generator's octets on the op line:
+   extend <W> <l> <q> <a> <trials|max> <bc> <tape>  -> "1 <p>" / "0" and the number of unread tape octets */
+static const unsigned char* c12_rng_tape;
+static size_t c12_rng_left;
+static void c12_rng(void* buf, size_t count, void* state)
+{
+	size_t k = count < c12_rng_left ? count : c12_rng_left;
+	memset(buf, 0, count);
+	memcpy(buf, c12_rng_tape, k);
+	c12_rng_tape += k, c12_rng_left -= k;
+}
+
+static void op_extend(int argc, char** argv)
+{
+	static word q[160], a[160], p[200];
+	size_t l, n, m, noq, noa, trials, bc, tl;
+	unsigned char* t;
+	void* stack;
+	bool_t r;
+	if (argc != 8) { printf("bad-op"); return; }
+	if (!chkW(argv[1])) { printf("wrong-word-size"); return; }
+	l = (size_t)u_arg(argv[2]);
+	n = num_arg(q, 128, argv[3], &noq); m = num_arg(a, 128, argv[4], &noa);
+	n = wwWordSize(q, n); m = wwWordSize(a, m);
+	trials = strcmp(argv[5], "max") ? (size_t)u_arg(argv[5]) : SIZE_MAX;
+	bc = (size_t)u_arg(argv[6]);
+	t = hex_arg(argv[7], &tl);
+	/* the documented preconditions (the function ASSERTs them) */
+	if (n == 0 || m == 0 || zzIsEven(q, n) || wwCmpW(q, n, 3) < 0 || bc > priBaseSize() || l > 8000 ||
+		wwBitSize(q, n) + wwBitSize(a, m) > l || l > 2 * wwBitSize(q, n))
+	{ printf("refused"); hex_free(t, tl); return; }
+	stack = blobCreate(priExtendPrime2_deep(l, n, m, bc) + 64);
+	c12_rng_tape = t, c12_rng_left = tl;
+	/* an exhausted tape would make the generator return zeros forever: bound the work */
+	if (trials == SIZE_MAX) trials = 100000;
+	r = priExtendPrime2(p, l, q, n, a, m, trials, bc, c12_rng, 0, stack);
+	if (r) printf("1 "), put_num(p, O_OF_B(l)); else printf("0");
+	printf(" %u", (unsigned)c12_rng_left);
+	blobClose(stack);
+	hex_free(t, tl);
+}
+
 static void handle(int argc, char** argv)
 {
 	if (argc < 1) { printf("bad-op"); return; }
@@ -637,6 +922,27 @@ static void handle(int argc, char** argv)
 	{
 		if (!chkW(argv[1])) { printf("wrong-word-size"); return; }
 		op_pri(argc, argv);
+		return;
+	}
+	if (!strcmp(argv[0], "obj")) { op_obj(argc, argv); return; }
+	if (!strcmp(argv[0], "ecpon") || !strcmp(argv[0], "ec2on")) { op_on(argc, argv); return; }
+	if (!strcmp(argv[0], "extend")) { op_extend(argc, argv); return; }
+	if (!strcmp(argv[0], "layout") && argc == 1)
+	{
+		printf("%u %u %u %u", (unsigned)sizeof(obj_hdr_t), (unsigned)sizeof(void*), (unsigned)sizeof(qr_o), (unsigned)sizeof(ec_o));
+		return;
+	}
+	if (!strcmp(argv[0], "baseprime") && argc == 2)
+	{
+		size_t i = (size_t)u_arg(argv[1]);
+		if (i >= priBaseSize()) printf("refused"); else printf("%llu", (unsigned long long)priBasePrime(i));
+		return;
+	}
+	if (!strcmp(argv[0], "basesize") && argc == 1) { printf("%u", (unsigned)priBaseSize()); return; }
+	if (!strcmp(argv[0], "mtx") && argc == 2)
+	{
+		mt_mtx_t mtx[1];
+		printf("%d", mtMtxIsValid(strcmp(argv[1], "null") ? mtx : 0) ? 1 : 0);
 		return;
 	}
 	if (!strcmp(argv[0], "std")) { op_std(argc, argv); return; }
